@@ -17,7 +17,6 @@ func init() { register(&Monitor{ID: "C11", Run: runC11, Self: selfC11}) }
 
 // genWritePath builds a well-formed write path for the current model tree: existing, partially existing or new
 // segments; list indices < n, = n, > n; intermediates that are missing, of the right kind or of a wrong kind.
-var veryLongPaddings int
 
 func genWritePath(c *fw.Ctx, r *rng.R, root *model.Node) string {
 	path := ""
@@ -56,10 +55,12 @@ func genWritePath(c *fw.Ctx, r *rng.R, root *model.Node) string {
 				// now and then the padding is long: block sizes and their neighbours
 				bigGap = true
 				idx = n + []int{15, 16, 17, 31, 32, 33, 63, 64, 65, 127, 128, 129, 255, 256, 257, 511, 512, 513, 1023, 1024, 1025, 2047, 2048, 2049, 4096}[r.Intn(25)]
-				if r.Chance(1, 12) && veryLongPaddings < 60 {
-					// an index is an index, however far away (at most 60 such writes per worker process: every later look at the
-					// tree walks the padding)
-					veryLongPaddings++
+				rare := 12
+				if c != nil && !c.Quick() {
+					rare = 12 * 40 // the thorough tier runs some forty times the cases: about as many such writes in both tiers
+				}
+				if r.Chance(1, rare) {
+					// an index is an index, however far away (every later look at the tree walks the padding, so these stay few)
 					idx = n + []int{65535, 65536, 65537, 70000, 131073}[r.Intn(5)]
 					c.Count("writes_with_very_long_padding")
 				}
